@@ -89,7 +89,9 @@ class HandlerHooks(Hooks):
                     out.append(("raise", exc, s))
             return out
         if n in ("ExecutionState.is_replaying",):
-            return [("val", fresh("bool", "is_replaying"), st)]
+            b = fresh("bool", "is_replaying")
+            st.emit("call", name="is_replaying", args=(), kwargs={}, result=b, scripted_bool=b.t)
+            return [("val", b, st)]
         if n in ("SerDes.serialize", "SerDes.deserialize"):
             st.emit("call", name=n, args=tuple(args), kwargs=dict(kwargs), recv=fn.info)
             s2 = st.fork() if self.serdes_raises else None
